@@ -105,6 +105,49 @@ def o_backbone_beyond_cutoff(ctx):
     ctx.claim('no-backbone-determinant', len(tg.determinants['backbone']) == 0)
 
 
+def o_backbone_other_groups_irrelevant(ctx):
+    """the backbone determinants of a group do not depend on which other titratable groups are in the list --
+    in particular not on a (far away, truncated) group that has no interaction atoms at all"""
+    import propka.determinants as D
+    import propka.group as G
+    p = H.params()
+
+    def world(extra):
+        ta = H.atom('CG', 'ASP', 10, 'A', 0.0, 0.0, 0.0)
+        tg = G.COOGroup(ta)
+        tg.parameters, tg.charge, tg.titratable = p, -1, True
+        ia = H.atom('OD1', 'ASP', 10, 'A', 0.0, 0.0, 0.0)
+        tg.set_interaction_atoms([ia], [ia])
+        n = H.atom('N', 'ALA', 20, 'A', x + 1.0, 0.0, 0.0)
+        h = H.atom('H', 'ALA', 20, 'A', x, 0.0, 0.0, element='H')
+        h.bonded_atoms, n.bonded_atoms = [n], [h]
+        bg = G.BBNGroup(n)
+        bg.parameters = p
+        bg.set_interaction_atoms([h, n], [h, n])
+        groups = [tg]
+        if extra:
+            fa = H.atom('CG', 'ASP', 900, 'X', 5000.0, 0.0, 0.0)
+            fg = G.COOGroup(fa)
+            fg.parameters, fg.charge, fg.titratable = p, -1, True
+            if extra == 'no-interaction-atoms':
+                fg.set_interaction_atoms([], [])
+            else:
+                fo = H.atom('OD1', 'ASP', 900, 'X', 5000.0, 1.0, 0.0)
+                fg.set_interaction_atoms([fo], [fo])
+            groups = [fg, tg] if position == 'before' else [tg, fg]
+        D.set_backbone_determinants(groups, [bg], H.version())
+        return tg
+    x = ctx.real('x', 0.5, 6.0)
+    position = ctx.choice('position_of_the_other_group', ['before', 'after'])
+    kind = ctx.choice('other_group', ['no-interaction-atoms', 'complete'])
+    alone = world(None)
+    together = world(kind)
+    da = [(d.label, d.value) for d in alone.determinants['backbone']]
+    dt = [(d.label, d.value) for d in together.determinants['backbone']]
+    ctx.claim('same-backbone-determinants-as-alone', len(da) == len(dt) and all(a[0] == b[0] and bool(eq(a[1], b[1])) for a, b in zip(da, dt)),
+              detail='alone %r, with a %s group %s: %r' % (da, kind, position, dt))
+
+
 def mk_smallest_distance(n1, n2, dims=3):
     def body(ctx):
         """get_smallest_distance returns the closest pair for every geometry
@@ -304,6 +347,9 @@ def obligations(tier):
         Obligation('O1c-backbone-beyond-cutoff', o_backbone_beyond_cutoff,
                    code=[D + 'set_backbone_determinants', 'propka/calculations.py:get_smallest_distance'],
                    bounds='3 pairings; backbone atom anywhere in the PDB coordinate range at >= 4.0 A', claim_doc='no backbone determinant, no exception'),
+        Obligation('O1e-backbone-other-groups-irrelevant', o_backbone_other_groups_irrelevant, code=[D + 'set_backbone_determinants'],
+                   bounds='one ASP at symbolic distance x in [0.5,6] from a backbone NH; a second group 5000 A away (complete, or truncated to no interaction atoms), listed before or after',
+                   claim_doc='the ASP gets the same backbone determinants as when it is alone'),
         Obligation('O1d-hbond-coulomb-cutoffs', o_hbond_beyond_cutoff,
                    code=[E + 'hydrogen_bond_interaction', E + 'electrostatic_interaction', E + 'check_coulomb_pair', E + 'coulomb_energy'],
                    bounds='3 type pairs, separation in [0, 9999.999], symbolic buried counts', claim_doc='None beyond the outer cut-offs'),
